@@ -128,6 +128,17 @@ CHECKS = {'C01': {'design_ref': 'DESIGN.md 3/C01',
                  'set-based reference graph (edges once, symmetric adjacency, neighbours/children/parents, isolated vertices, adjacency list, is_edge), '
                  'induced-subgraph masking renumbered in order (trees keep what stays connected to the root), colouring-DFS cycle test, tree test, path '
                  'validity, Floyd-Warshall distances, Kruskal weight, BFS tree relations; thorough repeats the alphabet on mask results (depth 2).'},
+ 'C15': {'design_ref': 'DESIGN.md 3/C15',
+         'note': '[interp] a permuted with_labels request is judged on content and determinism only; thorough n=4 three-label families use 9 stated edge sets',
+         'technique': 'exhaustive small-scope enumeration of labelled graphs x operations (depth 1-2) on the implementation against a set-based reference, '
+                      'repeated across process hash seeds',
+         'text': 'Every labelled graph on <=3 points (all 291 covering families of 1-3 overlapping label masks x every edge set, two opposite label-name '
+                 'orders, 2-D and 3-D, both constructors; thorough adds n=4 families and depth 2) x every operation letter (with_labels in original and every '
+                 'permuted order, without_labels, get_label, add_label with new and existing names x every index subset, remove_label, unknown labels) against '
+                 'a set / ordered-list reference (exact points, induced edges, restricted masks, original label order, coverage => ValueError); all 33 '
+                 'predefined labellers x every input size 1..120 x ndarray / PointCloud / labelled-graph inputs in 2-D and 3-D (exactly one accepted size, '
+                 'pure re-indexing, every output point labelled, commutation with an affine and a non-linear map, input untouched); the whole enumeration is '
+                 'repeated in separate interpreters with PYTHONHASHSEED 0..2 (quick) / 0..15 (thorough) and the per-case digests must be identical.'},
  'C16': {'design_ref': 'DESIGN.md 3/C16',
          'note': 'no ffmpeg: the video exporter is explored for the refusal path only; gz payloads compared after decompression (header carries an mtime)',
          'technique': 'explicit-state BFS over operation histories on the implementation, each transition checked against a reference model',
